@@ -51,7 +51,7 @@ type Request struct {
 	Root     []byte
 	Branch   int
 	NoHonest bool // an honest probe was asked for but no branch contains the stored checkpoint
-	SigValid int // 1 valid log signature+origin by construction, 0 invalid, -1 not known
+	SigValid int  // 1 valid log signature+origin by construction, 0 invalid, -1 not known
 	Desc     string
 }
 
